@@ -7,4 +7,6 @@ go build -o bin/vcheck ./cmd/vcheck || exit 1
 go build -o bin/vinstr ./cmd/vinstr || exit 1
 go build ./cmd/... ./rt/... ./internal/report/... ./internal/explore/... || exit 1
 go build ./... 2>/dev/null || true
+# engine self-tests (interleaving counts, channel/mutex semantics, deadlock and crash detection)
+go test ./internal/explore/ || exit 1
 echo setup done
